@@ -330,6 +330,9 @@ pub fn literal_pool() -> Vec<RV> {
         RV::Str("s".into()),
         RV::Str("".into()),
         RV::Str("a b".into()),
+        // text that names variables of the program in the notations other languages interpolate
+        RV::Str("{a}".into()),
+        RV::Str("x is {x}, b is ${b} and #{total}".into()),
     ]
 }
 
